@@ -11,7 +11,7 @@ ENV = dict(os.environ)
 ENV['PATH'] = '/root/go/pkg/mod/golang.org/toolchain@v0.0.1-go1.25.0.linux-amd64/bin:' + ENV['PATH']
 ENV.update(GOTOOLCHAIN='local', GOFLAGS='-mod=mod', GOPROXY='off', GOSUMDB='off', VERIF_NOEVIDENCE='1')
 ALL = ['C%02d' % i for i in range(1, 21)]
-RELATED = {'C01': ['C15', 'C02', 'C12', 'C10', 'C04'], 'C02': ['C16', 'C01', 'C15'], 'C03': ['C07', 'C20', 'C08', 'C01'], 'C04': ['C06', 'C05', 'C12', 'C01'], 'C05': ['C19', 'C13', 'C04', 'C06', 'C16'],
+RELATED = {'C01': ['C15', 'C02', 'C12', 'C10', 'C04', 'C19'], 'C02': ['C16', 'C01', 'C15'], 'C03': ['C07', 'C20', 'C08', 'C01'], 'C04': ['C06', 'C05', 'C12', 'C01'], 'C05': ['C19', 'C13', 'C04', 'C06', 'C16'],
            'C06': ['C03', 'C04', 'C12', 'C05'], 'C07': ['C03', 'C08', 'C09'], 'C08': ['C07', 'C03', 'C09'], 'C09': ['C07', 'C08', 'C03'], 'C10': ['C16', 'C01', 'C11'], 'C11': ['C10', 'C08', 'C01'],
            'C12': ['C06', 'C04', 'C01', 'C16'], 'C13': ['C19', 'C05', 'C20', 'C14', 'C03'], 'C14': ['C20', 'C13', 'C19'], 'C15': ['C17', 'C01', 'C02', 'C16'], 'C16': ['C10', 'C02', 'C12', 'C15', 'C05'],
            'C17': ['C15'], 'C18': ['C02', 'C16'], 'C19': ['C13', 'C05', 'C20', 'C14'], 'C20': ['C13', 'C14', 'C03', 'C19', 'C05']}
